@@ -127,7 +127,7 @@ def run_driver(v, hbin, driver, name, signature, trace_module="CmdLineTrace"):
                    "vjson": json.dumps(g.get("value"), sort_keys=True, separators=(",", ":")),
                    "pjson": json.dumps(g.get("path") or [], separators=(",", ":"))}
             w.write(json.dumps({"def": r["def"], "line": r["line"], "env": r.get("env") or {}, "got": got,
-                                "argv": r["argv_bytes"]}) + "\n")
+                                "argv": r["argv_bytes"], "kind": "parse"}) + "\n")
     r = run_tlc(trace_module, trace_module + ".cfg", env={"TRACE": slim, "DEFS": dpath}, workers=1,
                 extra_java="-Xss1g -Dtlc2.tool.queue.IStateQueue=StateDeque", timeout=1800)
     rej = [l for l in open(r["out"], errors="replace") if "REJECT" in l]
